@@ -303,3 +303,26 @@ func init() {
 		return ok && v.Pkg() != nil && v.Pkg().Path() == load.ModPath+"/cvsserr" && types.Identical(v.Type(), errorType)
 	}
 }
+
+// tableModelProblems reports what the table model could not represent, for the tables a property's rules read
+// (a package-level map of another kind - functions, structs - in another package is none of its business; a rule
+// that does read such a table gets an invalid value and reports UNDECIDED itself).
+func (e *Env) tableModelProblems(relevant func(t *facts.Table) bool) {
+	for _, p := range e.F.TableProblems {
+		if p.T == nil || relevant(p.T.Root()) {
+			e.C.Fail("table-model", "package-level tables", "", p.Msg)
+		}
+	}
+}
+
+func tableInPkgs(t *facts.Table, rels ...string) bool {
+	if t.Pkg == nil {
+		return false
+	}
+	for _, r := range rels {
+		if t.Pkg.PkgPath == load.ModPath+"/"+r {
+			return true
+		}
+	}
+	return false
+}
